@@ -3,6 +3,7 @@ package main
 import (
 	"fmt"
 	"os"
+	"reflect"
 	"sort"
 	"strings"
 
@@ -388,6 +389,173 @@ func pooledPhase(g *senGen, n int) {
 	}
 }
 
+// ---- sen.Tokenizer histories ----
+
+// inputs that stop while a member name is expected, and inputs that show it
+var exkeyPending = []string{"{", "{a:1", "{a:1 ", "[{", "{a:{", "{a:[1]", "{a:1,", "{a:1\n", "{a:b ", "{\"a\":1 ", "[1 {", "{a:1 b:2", "{ // c\n", "{a:1 ]"}
+var exkeyProbes = []string{"\"a\"", "a", "[a b]", "1", "[1]", "{a:1}", "'q' 1", "a b", "null", "[{a:1}]", "-3", "\"a\" \"b\"", "}"}
+
+type tcall struct {
+	in     []byte
+	reader bool
+	chunks []int
+	multi  bool
+}
+
+func (c tcall) spec() runSpec {
+	return runSpec{tok: true, reader: c.reader, multi: c.multi, chunks: c.chunks}
+}
+
+func (h *histGen) tcall() tcall {
+	r := h.g.r
+	var in []byte
+	switch r.Intn(12) {
+	case 0, 1, 2:
+		in = h.g.doc()
+	case 3, 4:
+		in = h.g.mutate(h.g.doc())
+	case 5, 6:
+		d := h.g.doc()
+		in = d[:r.Intn(len(d)+1)]
+	case 7, 8:
+		in = []byte(lib.Pick(r, exkeyPending))
+	case 9, 10:
+		in = []byte(lib.Pick(r, exkeyProbes))
+	default:
+		in = append(append(h.g.doc(), ' '), h.g.doc()...)
+	}
+	c := tcall{in: in, multi: r.Intn(3) == 0}
+	if r.Intn(3) == 0 {
+		c.reader = true
+		switch r.Intn(3) {
+		case 0:
+			c.chunks = nil
+		case 1:
+			c.chunks = make([]int, len(in))
+			for i := range c.chunks {
+				c.chunks[i] = 1
+			}
+		default:
+			if len(in) > 1 {
+				c.chunks = []int{1 + r.Intn(len(in)-1)}
+			}
+		}
+	}
+	return c
+}
+
+func describeTCall(c tcall) string {
+	e := "Parse"
+	if c.reader {
+		e = "Load" + fmt.Sprint(c.chunks)
+	}
+	return fmt.Sprintf("Tokenizer.%s(%q OnlyOne=%v)", e, string(trunc(c.in)), !c.multi)
+}
+
+// tokOn runs one call on t; the outcome carries the callbacks made (also those before an error).
+func tokOn(t *sen.Tokenizer, c tcall, reads *[]int) Outcome {
+	buf := append([]byte{}, c.in...)
+	o := guard(func() Outcome {
+		t.OnlyOne = !c.multi
+		h := &evHandler{}
+		var err error
+		if c.reader {
+			err = t.Load(rd(buf, c.chunks, reads), h)
+		} else {
+			err = t.Parse(buf, h)
+		}
+		if err != nil {
+			o := fromErr(err)
+			o.Tree = strings.Join(h.evs, ",")
+			return o
+		}
+		return Outcome{OK: true, Tree: strings.Join(h.evs, ",")}
+	})
+	for i := range buf {
+		buf[i] = 'X'
+	}
+	return o
+}
+
+func sameTokOutcome(a, b Outcome) bool {
+	return sameOutcome(a, b) && a.Tree == b.Tree
+}
+
+// exkeyOf reads the unexported field the tokenizer keeps between calls (reading a bool through
+// reflection is allowed for unexported fields).
+func exkeyOf(t *sen.Tokenizer) bool {
+	f := reflect.ValueOf(t).Elem().FieldByName("exkey")
+	if !f.IsValid() || f.Kind() != reflect.Bool {
+		fmt.Fprintln(os.Stderr, "sen.Tokenizer has no bool field exkey any more: the harness must be adapted")
+		os.Exit(3)
+	}
+	return f.Bool()
+}
+
+func tokHistoryJob(hists [][]tcall) job {
+	return func(d *lib.Driver, w int) error {
+		for _, h := range hists {
+			if err := runTokHistory(d, h); err != nil {
+				return err
+			}
+		}
+		return nil
+	}
+}
+
+// runTokHistory: calls on ONE sen.Tokenizer, each compared with a fresh tokenizer (callbacks and error)
+// and with the Lean machine started with the `exkey` the instance really holds at entry.
+func runTokHistory(d *lib.Driver, h []tcall) error {
+	rep.AddEval(1, 1)
+	rep.Count("tokenizer_calls", int64(len(h)))
+	t := &sen.Tokenizer{}
+	var descr []string
+	for i, c := range h {
+		descr = append(descr, describeTCall(c))
+		stale := exkeyOf(t)
+		var reads, freads []int
+		r := tokOn(t, c, &reads)
+		f := tokOn(&sen.Tokenizer{}, c, &freads)
+		sp := c.spec()
+		hx := lib.HexF(c.in)
+		carried := ""
+		if stale {
+			carried = "x"
+		}
+		reqs := []string{sp.modelKey(reads, carried) + "\t" + hx, sp.modelKey(freads, "") + "\t" + hx}
+		ans, err := d.Ask(reqs)
+		if err != nil {
+			return err
+		}
+		if ans[0] == "bad-op" || ans[1] == "bad-op" {
+			return fmt.Errorf("driver answered bad-op to %q", reqs)
+		}
+		m, mf := parseModel(ans[0]), parseModel(ans[1])
+		ex := map[string]any{"history": descr[:i+1], "call": i, "reused_instance": r.String(), "reused_callbacks": r.Tree, "fresh_instance": f.String(),
+			"fresh_callbacks": f.Tree, "model_reused": m.raw, "model_fresh": mf.raw, "exkey_at_entry": stale}
+		tr, tf := tie(m, r, sp), tie(mf, f, sp)
+		if tr != "" {
+			add("disagreement", "model:tokenizer-history", "reused tokenizer: "+tr, c.in, ex)
+		}
+		if tf != "" {
+			add("disagreement", "model:tokenizer-fresh", "fresh tokenizer: "+tf, c.in, ex)
+		}
+		if !sameTokOutcome(r, f) {
+			cls := "history:tokenizer-differs-from-fresh"
+			what := r.String() + " [" + r.Tree + "] instead of " + f.String() + " [" + f.Tree + "]"
+			if stale && tr == "" && tf == "" {
+				addKnown("C07sen-tokenizer-exkey-not-reset", cls+":C07sen-tokenizer-exkey-not-reset", "an earlier failed call left the tokenizer expecting a member name: "+what, c.in, ex)
+			} else {
+				add("violation", cls, "a call on a reused sen.Tokenizer differs from the same call on a fresh one: "+what, c.in, ex)
+			}
+		}
+		if r.Panic != "" {
+			break
+		}
+	}
+	return nil
+}
+
 func runC07() {
 	full := *tier == "thorough"
 	g := &senGen{r: lib.NewRng(*seed)}
@@ -425,6 +593,28 @@ func runC07() {
 		if len(hs) > 0 {
 			emit(historyJob(hs, fs))
 		}
+		// the same for ONE sen.Tokenizer
+		tg := &histGen{&senGen{r: lib.NewRng(*seed + 8888)}}
+		nTok := nHist / 2
+		if !on("tokhist") {
+			nTok = 0
+		}
+		var ts [][]tcall
+		for i := 0; i < nTok; i++ {
+			n := 2 + tg.g.r.Intn(5)
+			th := make([]tcall, n)
+			for k := range th {
+				th[k] = tg.tcall()
+			}
+			ts = append(ts, th)
+			if len(ts) >= 16 {
+				emit(tokHistoryJob(ts))
+				ts = nil
+			}
+		}
+		if len(ts) > 0 {
+			emit(tokHistoryJob(ts))
+		}
 	})
-	rep.Rule = "seeded random call histories (2..6 calls: valid, mutated, truncated, '+'-pending and '+'-revealing inputs; Parse / ParseReader with chunkings; no callback, func(any), func(any) bool; Reuse on/off per call; token functions registered or not) on ONE sen.Parser, each call compared (tree or error text and position) with the same call on a fresh parser; values returned earlier are rendered at return time and re-compared after every later call (calls with Reuse excepted); the input buffer is overwritten after each call; the same through the pooled sen.Parse/sen.ParseReader from one goroutine; the Lean machine is asked about every call with the plus flag it says the previous call left"
+	rep.Rule = "seeded random call histories (2..6 calls: valid, mutated, truncated, '+'-pending and '+'-revealing inputs; Parse / ParseReader with chunkings; no callback, func(any), func(any) bool; Reuse on/off per call; token functions registered or not) on ONE sen.Parser, each call compared (tree or error text and position) with the same call on a fresh parser; values returned earlier are rendered at return time and re-compared after every later call (calls with Reuse excepted); the input buffer is overwritten after each call; the same through the pooled sen.Parse/sen.ParseReader from one goroutine; the Lean machine is asked about every call with the plus flag it says the previous call left; the same kind of histories (Parse / Load with chunkings, OnlyOne on/off, inputs that stop while a member name is expected) on ONE sen.Tokenizer, callbacks and error compared with a fresh tokenizer, the Lean tokenizer machine asked about every call with the exkey flag the instance really holds at entry (read by reflection)"
 }
